@@ -40,8 +40,8 @@ RULE = (
     "Queue+QueueDriver+custom worker, ShiftedServer, RenegingQueuedResource, PooledCycleResource, BatchProcessor, "
     "ConveyorBelt, GateController; queue policies FIFO/LIFO/Priority/Deadline/Fair/WeightedFair/AdaptiveLIFO/CoDel/"
     "RED/Balking with capacities) fed with 2-60 tagged requests through ConditionalRouter relay chains of 0-3 hops, "
-    "arrival instants drawn from a few ticks (bursts, completion/shift/gate instants) — or a direct push/pop/peek "
-    "script on one policy inside the engine; main classes are multi (limits > 1) and aligned (coinciding instants), "
+    "arrival instants drawn from a few ticks (bursts, completion/shift/gate instants), scripted set_limit and "
+    "DeadlineQueue.purge_expired() housekeeping — or a direct push/pop/peek/purge_expired/query script on one policy inside the engine; main classes are multi (limits > 1) and aligned (coinciding instants), "
     "serial (every limit 1) and offgrid (no coinciding unrelated events) are minor classes; non-trivial = at least 3 requests offered and contention occurred (something waited, was "
     "rejected, or was held) / for policy scripts: >=3 pushes, >=2 pops, depth >=2 reached; distinct = distinct "
     "engine delivery digests"
@@ -95,6 +95,7 @@ EXPECTED_PROBES = [
     "probe.poll_found_nothing", "probe.policy_push_rejected", "probe.two_stage",
     "probe.configured_policy_on_shifted_or_reneging", "probe.shift_first_arrival_in_later_shift",
     "probe.batch_of_one_with_timeout_processed_at_once",
+    "probe.policy_purge_removed", "probe.policy_purge_left_3plus", "probe.policy_query", "probe.pipeline_purge_removed",
 ]
 SHRINK_SKIP = ("kind", "type", "model", "mode", "flow", "flow_weights", "max_p", "weight", "prob")
 SHRINK_BUDGET_S = {"quick": 20.0, "thorough": 60.0}
@@ -256,14 +257,23 @@ def gen_pipeline(rng, tier, seed):
             for _ in range(rng.randint(0, 5)):
                 ctl.append({"tick": rng.choice(cand) + rng.choice([0, 0, 1, 2]), "stage": si,
                             "limit": rng.randint(0, st["conc"]["max"] + 1)})
+    purge = []
+    for si, st in enumerate(stages):
+        if st["kind"] in QR_KINDS and st["policy"]["type"] == "deadline" and rng.random() < 0.7:
+            for _ in range(rng.randint(1, 4)):      # periodic housekeeping: DeadlineQueue.purge_expired()
+                purge.append({"tick": rng.choice(cand) + rng.choice([0, 1, 2, 3, 5]), "stage": si})
     return {"seed": seed, "kind": "pipeline", "serial": serial, "offgrid": offgrid, "stages": stages,
-            "flow_weights": {f: rng.randint(1, 3) for f in FLOWS}, "arrivals": arrivals, "ctl": ctl}
+            "flow_weights": {f: rng.randint(1, 3) for f in FLOWS}, "arrivals": arrivals, "ctl": ctl, "purge": purge}
 
 
 def gen_policy(rng, tier, seed):
     cfg = gen_policy_cfg(rng)
     n = rng.randint(3, 24)
-    items = [{"prio": rng.randint(0, 3), "flow": rng.choice(FLOWS), "dl": rng.randint(0, 12)} for _ in range(n)]
+    wide = rng.random() < 0.5
+    items = [{"prio": rng.randint(0, 3), "flow": rng.choice(FLOWS),
+              "dl": rng.choice([rng.randint(0, 4), rng.randint(0, 12), rng.randint(5, 60)]) if wide else rng.randint(0, 12)}
+             for _ in range(n)]
+    p_purge = rng.choice([0.0, 0.08, 0.15]) if cfg["type"] == "deadline" else 0.0
     ops, t, nxt = [], 0, 0
     p_pop = rng.choice([0.25, 0.4, 0.55])
     for _ in range(rng.randint(6, 70)):
@@ -272,8 +282,12 @@ def gen_policy(rng, tier, seed):
         r = rng.random()
         if r < p_pop:
             ops.append({"op": "pop", "t": t})
-        elif r < p_pop + 0.1:
+        elif r < p_pop + 0.07:
             ops.append({"op": "peek", "t": t})
+        elif r < p_pop + 0.14:
+            ops.append({"op": "query", "t": t})
+        elif r < p_pop + 0.14 + p_purge:
+            ops.append({"op": "purge", "t": t})
         elif nxt < n:
             ops.append({"op": "push", "it": nxt, "t": t})
             nxt += 1
@@ -390,7 +404,8 @@ def _validate(sc):
             _need(isinstance(it, dict) and _isint(it.get("prio", 0), 0) and it.get("flow", "f0") in FLOWS
                   and _isint(it.get("dl", 0), 0), "item")
         for op in sc["ops"]:
-            _need(isinstance(op, dict) and op.get("op") in ("push", "pop", "peek") and _isint(op.get("t", 0), 0), "op")
+            _need(isinstance(op, dict) and op.get("op") in ("push", "pop", "peek", "purge", "query")
+                  and _isint(op.get("t", 0), 0), "op")
             if op["op"] == "push":
                 _need(_isint(op.get("it"), 0, len(sc["items"]) - 1), "op item")
         return
@@ -410,6 +425,8 @@ def _validate(sc):
               and _isint(c.get("limit", 1), 0), "ctl")
         s = st[c.get("stage", 0)]
         _need(s["kind"] == "server" and s["conc"]["model"] == "dynamic", "ctl target")
+    for c in sc.get("purge", []):
+        _need(isinstance(c, dict) and _isint(c.get("tick", 0), 0) and _isint(c.get("stage", 0), 0, len(st) - 1), "purge")
     fw = sc.get("flow_weights", {})
     _need(isinstance(fw, dict) and all(k in FLOWS and _isint(v, 0) for k, v in fw.items()), "flow_weights")
 
@@ -433,12 +450,14 @@ def _normalise(sc):
     out["arrivals"] = arr
     out["ctl"] = [{"t": c.get("tick", 0) * TICK, "stage": c.get("stage", 0), "limit": c.get("limit", 1)}
                   for c in sc.get("ctl", [])]
+    out["purge"] = [{"t": c.get("tick", 0) * TICK, "stage": c.get("stage", 0)} for c in sc.get("purge", [])]
     return out
 
 
 def _horizon_ticks(sc):
     n = len(sc["arrivals"])
-    last = max([a.get("tick", 0) for a in sc["arrivals"]] + [c.get("tick", 0) for c in sc.get("ctl", [])] + [0])
+    last = max([a.get("tick", 0) for a in sc["arrivals"]] + [c.get("tick", 0) for c in sc.get("ctl", [])]
+               + [c.get("tick", 0) for c in sc.get("purge", [])] + [0])
     step = 2
     edge = 0
     for st in sc["stages"]:
